@@ -27,7 +27,7 @@ CHECKS = {
 
 CHECKS.update({
  "C17": dict(engine="E2 bfs (differential)", sec="4/C17", technique=E2 + ", differential: the same actions drive the full serial path and a direct bus in lock-step; plus exhaustive fault injection at the bridge",
-   text="The real Sign -> SerialSignBus -> in-process byte pipe -> Odk -> VirtualSignBus path and an identical VirtualSignBus driven directly are explored together, breadth-first to a fixed point: at controller level (configure, configure_if_needed, send_pages of 4 lists, show, load_next, shut_down, reconfigure as another type, an absent address; 11 types x both flip styles) and at message level (R2 alphabet plus 0/1/15-byte chunks). After every step success/failure, replies and all signs' state/type/pages must agree, no byte may be left on the wire, and every bridge call must have forwarded exactly the decoding of the line it read (the implementation's own codec, taken as given) and written back a frame iff the bus replied. Every reply/malformed line x {reply, silence} x {read error at every call index, write error, bus error} is injected at a bridge on a scripted port, and every line is followed by a valid second line through the same bridge.",
+   text="The real Sign -> SerialSignBus -> in-process byte pipe -> Odk -> VirtualSignBus path and an identical VirtualSignBus driven directly are explored together, breadth-first to a fixed point: at controller level (configure, configure_if_needed, send_pages of 4 lists, show, load_next, shut_down, reconfigure as another type, an absent address; 11 types x both flip styles) and at message level (R2 alphabet plus 0/1/15-byte chunks plus eight unknown frames that look like known one-byte messages). After every step success/failure, replies and all signs' state/type/pages must agree, no byte may be left on the wire, and every bridge call must have forwarded exactly the decoding of the line it read (the implementation's own codec, taken as given) and written back a frame iff the bus replied. Every reply/malformed line x {reply, silence} x {read error at every call index, write error, bus error} is injected at a bridge on a scripted port, and every line is followed by a valid second line through the same bridge.",
    note="Single-threaded duplex (the bridge runs inside the controller's port write); pauses skipped through the seam; a refused request is 'no reply' directly and a read failure on the wire."),
 
  "C08": dict(engine="E2 bfs", sec="4/C08", technique=E2 + "; the action alphabet is the union of raw bus messages (which generate every prior state) and whole operations of the real controller",
@@ -35,7 +35,7 @@ CHECKS.update({
    note="Modelling assumption on earlier traffic's configuration blocks stated in the evidence; page contents are 4 patterns; thorough adds 6 addresses, richer chunks and a bystander sign."),
 
  "C09": dict(engine="E3 tree + responding bus", sec="4/C09", technique="exhaustive enumeration of (sign type, address, page list, retry schedule, unacknowledged attempt) against the real controller, judged by a trace predicate",
-   text="Every combination of the 11 sign types x 4 addresses x retry schedules {S,FS,FFS,FFF} x {configure, send_pages over a table of page lists: 0..16 pages, every page size 16k bytes for k=1..24 (64 thorough) and 255,256,257,4095,4096 (the 16-bit offset limit), mixed sizes, a list of exactly 65535 chunks} x {every attempt acknowledged, or the n-th receive request answered by silence / another operation's ack / a foreign ack / a report, or the j-th data chunk answered by a stray report} is run on the real Sign against a recording bus; the recorded conversation is judged by a trace predicate (ack before data in every attempt, per-item offsets 0,16,32.., chunks <= 16 bytes, concatenation == item, count == chunks since the request, query after count).",
+   text="Every combination of the 11 sign types x 4 addresses x retry schedules {S,FS,FFS,FFF} x {configure, send_pages over a table of page lists: 0..16 pages, every page size 16k bytes for k=1..24 (64 thorough) and 255,256,257,4095,4096 (the 16-bit offset limit), mixed sizes, a list of exactly 65535 chunks} x {every attempt acknowledged, or the n-th receive request answered by silence / another operation's ack / a foreign ack / a report, or the j-th data chunk answered by a stray report} is run on the real Sign against a recording bus; the recorded conversation is judged by a trace predicate over the transfers that are made (an unacknowledged request is never followed by data or a count before the next request; per acknowledged attempt: per-item offsets 0,16,32.., chunks <= 16 bytes, concatenation == item, count == chunks since the request, query after count). How often the controller asks again or retries is left to C10/C11.",
    note="Transfers above 65535 chunks or pages above 64 KiB are outside the property (16-bit fields); contents are position-identifying fills."),
  "C10": dict(engine="E3 tree", sec="4/C10", technique="stateless exhaustive reply-tree enumeration (every reply of a 47-symbol alphabet at every step, by prefix re-execution of the real operation) compared with a reference controller automaton",
    text="The complete reply tree of configure, configure_if_needed, send_pages([],[p],[p,q]), show_loaded_page, load_next_page and shut_down is enumerated on the real Sign: at every step every one of 47 replies (13 states x own/foreign, 6 acks x own/foreign, none, goodbye, unknown frame, 6 kinds of bus failure) is offered until the operation returns (3.5 M leaves quick; polling loops cut at a stated horizon, cut prefixes still checked). Every leaf's exact message list and outcome class is compared with a reference automaton of the documented protocol, and a bus error must be the injected one. One documented don't-care: an unexpected answer to send_pages' closing query may yield 'manual' or a protocol error.",
@@ -63,7 +63,7 @@ CHECKS.update({
    text="All 11 types (block fields vs dimensions; a real VirtualSign configured with the block stores exactly a page of the type's size, and whatever it holds after a page of a neighbouring size has the type's dimensions), all 121 ordered pairs of types (failed attempt with A, retry with B), all 65536 (family,id) pairs with the other 14 bytes varied, every length 0..=600 and lengths = 16 mod 256 / mod 65536, and every single-byte variation of every real block are decoded and compared with a literal table.",
    note="Trusts the literal table SIGN_TYPES."),
  "C20": dict(engine="E3 tree + E4 devices", sec="4/C20", technique="exhaustive product of prior port settings x constructors x a fault at each configuration call, on a scripted SerialDevice",
-   text="14 prior baud values x 4 char sizes x 3 parities x 2 stop bits x 3 flow controls x 3 prior timeouts x {SerialSignBus::try_new, Odk::try_new, configure_port with 4 timeouts} x {no fault, or each of 4 configuration calls failing with 3 error kinds, on every occurrence or only the 1st/2nd/3rd} = 943k constructions on a scripted device that records every call; resulting line settings, timeout (the caller's value for configure_port; some non-zero timeout for the constructors), call order and error propagation are judged.",
+   text="14 prior baud values x 4 char sizes x 3 parities x 2 stop bits x 3 flow controls x 3 prior timeouts x {SerialSignBus::try_new, Odk::try_new, configure_port with 4 timeouts} x {no fault, or each of 4 configuration calls failing with 5 error kinds (incl. Interrupted and WouldBlock), on every occurrence or only the 1st/2nd/3rd} = 1.52 M constructions, visited in a stride permutation with the budget polled, on a scripted device that records every call; resulting line settings, timeout (the caller's value for configure_port; some non-zero timeout for the constructors) and error propagation are judged: an object is returned only fully configured, a call that fails every time surfaces as that error, after a one-off failure either the error or a fully configured object.",
    note="Trusts serial-core's blanket reconfigure; the settings type is the harness's own so every call can be made to fail."),
 
  "C12": dict(engine="E2 bfs", sec="4/C12", technique=E2 + "; plus directed exhaustive sweeps of configuration fields and 70000-step counter chains",
